@@ -7,8 +7,10 @@ import (
 	"math/rand"
 	"os"
 	"path/filepath"
+	"regexp"
 	"runtime"
 	"sort"
+	"strconv"
 	"strings"
 	"sync"
 	"testing"
@@ -71,16 +73,16 @@ type clientState struct {
 
 // Run executes one Case.
 type Run struct {
-	pendingMts map[uint64]int // managed mode: commit timestamps chosen but not yet through the oracle
+	pendingMts  map[uint64]int             // managed mode: commit timestamps chosen but not yet through the oracle
 	compactGone map[string]map[uint64]bool // versions some compaction dropped
 	compactKey  map[int64]*compactKeyState // per sub-compaction goroutine: the key being iterated
 	subcompactD map[int64]uint64           // per sub-compaction goroutine: its discard timestamp
-	encSt1     *recState
-	encNeedles map[string]string
-	encKeys    []string
-	encNKeyIDs int
-	encIVs     map[string]uint64 // C23: (data key id, IV) pairs seen so far
-	encKeyIDs  map[uint64]bool
+	encSt1      *recState
+	encNeedles  map[string]string
+	encKeys     []string
+	encNKeyIDs  int
+	encIVs      map[string]uint64 // C23: (data key id, IV) pairs seen so far
+	encKeyIDs   map[uint64]bool
 	// swFlushing: StreamWriter.Flush is running. Flush calls readTs() on the oracle it has
 	// just stopped (a Begin nobody will ever process or match); those marks are not the new
 	// oracle's and are ignored by the watermark invariant.
@@ -175,6 +177,27 @@ func (r *Run) tagKnownPatterns(msg string) string {
 			}
 		}
 	}
+	// value-log GC keeps only the values of the versions it considers live (the newest one of
+	// a key): an older version that the LSM tree still retains (NumVersionsToKeep > 1, or not
+	// compacted yet) keeps its pointer into a file GC deleted, and an all-versions scan
+	// returns it with an empty value and no error
+	if m := reItemDiffers.FindStringSubmatch(msg); m != nil && strings.Contains(msg, "got {") && reEmptyGot.MatchString(msg) {
+		if key, err := strconv.Unquote(m[1]); err == nil {
+			ver, _ := strconv.ParseUint(m[2], 10, 64)
+			r.pmu.Lock()
+			gcRan := r.stats.Probes["gc_rewrote_file"] > 0
+			r.pmu.Unlock()
+			newer := false
+			for _, v := range r.model.Keys[key] {
+				if v.Ts > ver && r.model.live(&v) {
+					newer = true
+				}
+			}
+			if gcRan && newer {
+				return msg + fmt.Sprintf(" [pattern: value of the non-newest version %q@%d is gone after value-log GC deleted its file]", key, ver)
+			}
+		}
+	}
 	// managed mode, non-monotonic commit timestamps: a write with an OLDER version was
 	// committed AFTER a newer delete marker of the key, and a compaction discarded that
 	// marker (it was at or below the discard timestamp and nothing older lay below it)
@@ -233,6 +256,11 @@ func (r *Run) logf(format string, args ...interface{}) {
 }
 
 var logLive = os.Getenv("VERIF_LOG_LIVE") != ""
+
+var (
+	reItemDiffers = regexp.MustCompile(`item ("(?:[^"\\]|\\.)*")@(\d+) differs from what was written`)
+	reEmptyGot    = regexp.MustCompile(`got \{.* \[\] \d+ \d+ (true|false) (true|false) (true|false)\}`)
+)
 
 // watchdogAfter: real-time limit of one run (VERIF_WATCHDOG_S overrides, for the self-test of the stall handling).
 func watchdogAfter() time.Duration {
